@@ -312,8 +312,6 @@ class World(object):
         pktin = sum(1 for m in hp["s2c"] if m["type"] == rb.PACKET_IN)
         if hp["foreign"]:
           anomalies.append("emission-on-other-switch")
-        if hp["others"]:
-          anomalies.append("openflow-traffic-on-other-switch")
         obs.append(dict(s=hp["s"], i=hp["i"], pktin=pktin, out=list(hp["out"]),
                         mod=1 if hp["modified"] else 0, inst=self._inst(hp["c2s"]),
                         tbl=None, buf=hp["buf"]))
